@@ -965,18 +965,18 @@ class Reaction(Object):
         # no references to model when copying
         model = self._model
         self._model = None
-        for i in self._metabolites:
-            i._model = None
-        for i in self._genes:
+        # a reaction that was removed from a model still holds that model's
+        # metabolites and genes: every object gets its own model back
+        species_models = [(i, i._model) for i in self._metabolites]
+        species_models += [(i, i._model) for i in self._genes]
+        for i, _ in species_models:
             i._model = None
         # now we can copy
         new_reaction = deepcopy(self)
         # restore the references
         self._model = model
-        for i in self._metabolites:
-            i._model = model
-        for i in self._genes:
-            i._model = model
+        for i, species_model in species_models:
+            i._model = species_model
         return new_reaction
 
     def __add__(self, other: "Reaction") -> "Reaction":
